@@ -2160,13 +2160,14 @@ class TagNode(_ElementWrappingNode, NodeBase):
                 new_node = new_tag_node(
                     local_name=node_test.local_name,
                     attributes=None,
-                    namespace=namespaces.get(node_test.prefix),
+                    namespace=namespaces.get(node_test.prefix or ""),
                 )
 
                 for prefix, local_name, value in step._derived_attributes:
-                    new_node.attributes[(namespaces.get(prefix) or "", local_name)] = (
-                        value
-                    )
+                    # as in the evaluation an unprefixed attribute has no namespace
+                    new_node.attributes[
+                        (namespaces[prefix] if prefix else "", local_name)
+                    ] = value
 
                 node.append_children(new_node)
                 node = new_node
